@@ -793,7 +793,7 @@ func classifyRace(block string) raceClass {
 
 // Run is the C07 check.
 func Run(ctx *core.Ctx) {
-	ctx.Rule = "histories recorded at the client boundary (call time before the first byte is sent, return time after the reply is read, one monotonic clock) with 2-8 writer clients (all write commands; tokenless ones identified in the log by a per-client casing of the command word) and 0-24 token-writer/reader clients on 3 collections x 4 ids, optional live fences and background expiry, both lock variants, GOMAXPROCS 2/4/16. Long histories: the log-order checker matches every log entry to the operation that caused it, replays the log through the sequential model (each write's reply must equal the model's at its log position), checks that the log order never contradicts real time, and places every read / no-op write at a log position inside its real-time window with cross-client monotonicity. Short histories: porcupine linearizability check with the same model (independent of the log). Race build: the same workload under the Go race detector (halt_on_error=0), reports classified by whether they touch lock-guarded state. non-trivial = history with >= 1 pair of overlapping operations of different clients on the same collection; distinct key = set of overlapping command-kind pairs (bucketed) x configuration"
+	ctx.Rule = "histories recorded at the client boundary (call time before the first byte is sent, return time after the reply is read, one monotonic clock) with 2-8 writer clients (all write commands; tokenless ones identified in the log by a per-client casing of the command word) and 0-24 token-writer/reader clients on 3 collections x 4 ids, optional live fences and background expiry, both lock variants, GOMAXPROCS 2/4/16. Long histories: the log-order checker matches every log entry to the operation that caused it, replays the log through the sequential model (each write's reply must equal the model's at its log position), checks that the log order never contradicts real time, and places every read / no-op write at a log position inside its real-time window with cross-client monotonicity. Short histories: porcupine linearizability check with the same model (independent of the log). Race build: the same workload under the Go race detector (halt_on_error=0), reports classified by whether they touch lock-guarded state; plus one run of script traffic (every script-callable write through EVAL and EVALNA, reads through EVALRO/EVALNA, against plain readers of the same collection) judged by the race detector only. non-trivial = history with >= 1 pair of overlapping operations of different clients on the same collection; distinct key = set of overlapping command-kind pairs (bucketed) x configuration"
 	ctx.Assumptions = []string{"the sequential model kmodel is the specification of single-command behaviour (C01 decides that)", "client clocks: one monotonic clock in the harness process"}
 	bin, err := srv.Build("plain")
 	if err != nil {
@@ -1000,5 +1000,129 @@ func raceRun(ctx *core.Ctx, stats map[string]int64) {
 			}
 		}
 	}
+	raceScripts(ctx, bin, seen, stats)
 	stats["race_distinct_guarded"] = int64(len(seen))
+}
+
+// raceScripts: the race detector over script traffic. Every script-callable
+// write is issued through EVAL and EVALNA (and every read through EVALRO and
+// EVALNA) on one collection while plain readers search and read it. Nothing is
+// modelled here: the observation is the race detector's (and a server death).
+func raceScripts(ctx *core.Ctx, bin string, seen map[string]int, stats map[string]int64) {
+	dir := srv.NewDir()
+	env := []string{"GOMAXPROCS=16", "GORACE=halt_on_error=0 log_path=" + filepath.Join(dir, "race")}
+	s, err := srv.Start(srv.Opts{Bin: bin, Env: env, Dir: dir, ReadyTimeout: 120 * time.Second})
+	if err != nil {
+		ctx.Inconclusive("race scripts: " + err.Error())
+		return
+	}
+	defer s.Kill9()
+	ids := []string{"a", "b", "c", "d", "e", "f"}
+	call := func(c *respc.Conn, kind string, args ...string) {
+		var sb strings.Builder
+		sb.WriteString("return tile38.pcall(")
+		for i := range args {
+			if i > 0 {
+				sb.WriteString(",")
+			}
+			sb.WriteString("ARGV[" + strconv.Itoa(i+1) + "]")
+		}
+		sb.WriteString(")")
+		c.Do(append([]string{kind, sb.String(), "0"}, args...)...)
+	}
+	var wg sync.WaitGroup
+	n := ctx.Pick(120, 500)
+	for w := 0; w < 4; w++ {
+		wg.Add(1)
+		go func(w int) {
+			defer wg.Done()
+			r := ctx.SubRng(int64(31000 + w))
+			c, err := respc.Dial(s.Addr(), 5*time.Second)
+			if err != nil {
+				return
+			}
+			defer c.Close()
+			c.Timeout = 30 * time.Second
+			for i := 0; i < n; i++ {
+				id := ids[r.Intn(len(ids))]
+				kind := []string{"EVAL", "EVALNA"}[r.Intn(2)]
+				switch r.Intn(10) {
+				case 0, 1:
+					call(c, kind, "set", "scr", id, "field", "n", strconv.Itoa(i), "ex", "1000", "point", strconv.Itoa(r.Intn(50)), strconv.Itoa(r.Intn(50)))
+				case 2:
+					call(c, kind, "fset", "scr", id, "n", strconv.Itoa(i), "m", "1")
+				case 3:
+					call(c, kind, "expire", "scr", id, "1000")
+				case 4:
+					call(c, kind, "persist", "scr", id)
+				case 5:
+					call(c, kind, "del", "scr", id)
+				case 6:
+					call(c, kind, "jset", "scr", "doc"+id, "p.q", strconv.Itoa(i))
+				case 7:
+					call(c, kind, "jdel", "scr", "doc"+id, "p.q")
+				case 8:
+					call(c, kind, "set", "scr", id, "string", "v"+strconv.Itoa(i))
+				default:
+					call(c, []string{"EVALRO", "EVALNA"}[r.Intn(2)], "scan", "scr", "limit", "5")
+				}
+			}
+		}(w)
+	}
+	for rd := 0; rd < 4; rd++ {
+		wg.Add(1)
+		go func(rd int) {
+			defer wg.Done()
+			r := ctx.SubRng(int64(32000 + rd))
+			c, err := respc.Dial(s.Addr(), 5*time.Second)
+			if err != nil {
+				return
+			}
+			defer c.Close()
+			c.Timeout = 30 * time.Second
+			for i := 0; i < n; i++ {
+				id := ids[r.Intn(len(ids))]
+				switch r.Intn(6) {
+				case 0:
+					c.Do("SCAN", "scr")
+				case 1:
+					c.Do("NEARBY", "scr", "POINT", "10", "10")
+				case 2:
+					c.Do("GET", "scr", id, "WITHFIELDS")
+				case 3:
+					c.Do("TTL", "scr", id)
+				case 4:
+					c.Do("WITHIN", "scr", "IDS", "BOUNDS", "0", "0", "50", "50")
+				default:
+					c.Do("SCAN", "scr", "WHERE", "n", "0", "1000", "COUNT")
+				}
+			}
+		}(rd)
+	}
+	wg.Wait()
+	ctx.Eval(1)
+	stats["race_script_runs"]++
+	stats["race_script_ops"] += int64(8 * n)
+	if !s.Alive() {
+		_, site := s.Crashed()
+		ctx.Violation("runtime-fatal:"+site, "race build: server died under script traffic: "+site, map[string]any{"stderr": s.StderrTail(6000)})
+		return
+	}
+	s.Term(20 * time.Second)
+	for _, b := range srv.RaceReports(filepath.Join(dir, "race")) {
+		rc := classifyRace(b)
+		stats["race_reports"]++
+		if !rc.guarded {
+			stats["other_race_reports"]++
+			continue
+		}
+		if seen[rc.key] == 0 {
+			txt := b
+			if len(txt) > 3500 {
+				txt = txt[:3500]
+			}
+			ctx.Violation("race:"+rc.key, "data race on lock-guarded state (script traffic): "+rc.key, map[string]any{"report": txt})
+		}
+		seen[rc.key]++
+	}
 }
